@@ -697,7 +697,7 @@ out:
 int main(int argc, char **argv)
 {
         mc_init(argc, argv, "C18");
-        mc_set_budget(150, 1500);
+        mc_set_budget(300, 1500);
         int bound = mc_tier == MC_THOROUGH ? 3 : 2;
         opt_part = 1; opt_half = 1; opt_sendcap = 1;
         mc_meta("level", "model_checking");
